@@ -6,6 +6,7 @@ CONSTANTS
   Modes = {"xsec", "ktables"}
   RpRoutes = {"param", "attr"}
   Entries = {"model", "partial"}
+  PhysSet = {"rp", "ts", "dist"}
   Record = TRUE
   MaxSets = 2
   SVariant = "code"
